@@ -28,7 +28,7 @@ CONSTANTS
   PTrace,     \* path trace option
   TP0,        \* initial time properties record
   PCfg,       \* sequence of port configs [p2p, mo, aml, keep]
-              \*   aml : "any" or a set of acceptable clock identities
+              \*   aml : the set of acceptable clock identities; a set containing 0 (AnyId) accepts every identity
               \*   keep: announce interval of the port in BMCA steps (1 if all ports share one interval)
   DevDup,     \* deviation of the code kept by a test of the repository: an Announce repeating the last stored
               \*   sequenceId is stored again (FALSE: the intended design, distinct messages only)
@@ -39,6 +39,7 @@ NP == Len(PCfg)
 Ports == 1..NP
 
 NoPid == <<0, 0>>
+NoUtc == 99999        \* "no valid UTC offset" (currentUtcOffsetValid = FALSE)
 Fld(r, k, d) == IF k \in DOMAIN r THEN r[k] ELSE d
 Min(a, b) == IF a < b THEN a ELSE b
 NoneV == [none |-> TRUE]
@@ -65,10 +66,11 @@ Threshold == 2       \* FOREIGN_MASTER_THRESHOLD
 MaxMsgs == 8
 MaxMasters == 8
 ChanCap == 128       \* capacity of the daemon's broadcast channel
-DefaultTp == [utc |-> "null", leap |-> 0, tt |-> FALSE, ft |-> FALSE, ptp |-> TRUE, src |-> 160]
+DefaultTp == [utc |-> NoUtc, leap |-> 0, tt |-> FALSE, ft |-> FALSE, ptp |-> TRUE, src |-> 160]
 
 Cut(p) == Window * PCfg[p].keep
-Acceptable(p, clk) == PCfg[p].aml = "any" \/ clk \in PCfg[p].aml
+AnyId == {0}            \* acceptable master list that accepts every identity
+Acceptable(p, clk) == 0 \in PCfg[p].aml \/ clk \in PCfg[p].aml
 Propagates(ty) == ty = 8 \/ ty = 9 \/ (ty >= 16384 /\ ty <= 32767)
 TlvSize(t) == 4 + t.len
 PathTlv(path) == [ty |-> 8, len |-> 8 * Len(path), tag |-> 0, path |-> path]
@@ -328,7 +330,8 @@ DelayReqTimer(s, p) ==
                logi |-> 127, ctx |-> Len(s.ctx[p]) + 1, selfdec |-> TRUE]>>)
 
 ReceiptTimer(s, p) ==
-  IF s.so THEN
+  IF s.pst[p] = "F" THEN Res(Draw(s, p), <<T("rcpt", "R")>>)      \* a faulty port stays out of the protocol and keeps the timer running
+  ELSE IF s.so THEN
      LET f == IF s.pst[p] # "L" THEN SetForced(s, p, "L", NoPid) ELSE [s |-> s, clk |-> <<>>, flt |-> <<>>]
      IN Res3(Draw(f.s, p), <<T("rcpt", "R")>>, f.clk, f.flt)
   ELSE
@@ -339,7 +342,7 @@ FilterTimer(s, p) == Res3(s, <<>>, <<>>, <<[p |-> p, k |-> "upd"]>>)
 
 \* ---------------------------------------------------------------- measurements (port/slave.rs: extract_measurement + handle_time_measurement)
 Asym(p) == V("asym")
-Opt(x) == IF IsNoneV(x) THEN "null" ELSE x
+Opt(x) == x        \* an absent optional is the record NoneV; the harness compares it with null
 
 TryMeasure(s, p) ==
   LET pd == s.pd[p] IN
@@ -347,7 +350,7 @@ TryMeasure(s, p) ==
      LET d == FHalf(FSub(FSub(pd.t4, pd.t1), FSub(pd.t3, pd.t2)))
          s1 == [s EXCEPT !.pd[p] = [st |-> "P", id |-> pd.id, r |-> pd.r]]
          f == IF s1.pst[p] = "F" THEN SetForced(s1, p, "L", NoPid) ELSE [s |-> s1, clk |-> <<>>, flt |-> <<>>]
-         m == [p |-> p, k |-> "meas", et |-> pd.t4, off |-> "null", dly |-> "null", pdly |-> d, rs |-> "null", rd |-> "null"]
+         m == [p |-> p, k |-> "meas", et |-> pd.t4, off |-> NoneV, dly |-> NoneV, pdly |-> d, rs |-> NoneV, rd |-> NoneV]
      IN Res3([f.s EXCEPT !.md[p] = d], <<>>, f.clk, f.flt \o <<m>>)
   ELSE IF s.pst[p] # "S" THEN NoOp(s)
   ELSE
@@ -355,13 +358,13 @@ TryMeasure(s, p) ==
      IF sy.st = "M" /\ ~IsNoneV(sy.send) /\ ~IsNoneV(sy.recv) THEN
         LET raw == FSub(FSub(sy.recv, sy.send), Asym(p))
             off == IF IsNoneV(s.md[p]) THEN NoneV ELSE FSub(raw, s.md[p])
-            m == [p |-> p, k |-> "meas", et |-> sy.recv, off |-> Opt(off), dly |-> "null", pdly |-> "null", rs |-> raw, rd |-> "null"]
+            m == [p |-> p, k |-> "meas", et |-> sy.recv, off |-> Opt(off), dly |-> NoneV, pdly |-> NoneV, rs |-> raw, rd |-> NoneV]
         IN Res3([s EXCEPT !.lrs[p] = raw, !.sy[p] = EmptyX], <<>>,
                 IF IsNoneV(off) THEN <<>> ELSE << <<p, "freq", 1>> >>, <<m>>)
      ELSE IF dl.st = "M" /\ ~IsNoneV(dl.send) /\ ~IsNoneV(dl.recv) THEN
         LET rawd == FSub(FSub(dl.send, dl.recv), Asym(p))
             d == IF IsNoneV(s.lrs[p]) THEN NoneV ELSE FHalf(FSub(s.lrs[p], rawd))
-            m == [p |-> p, k |-> "meas", et |-> dl.send, off |-> "null", dly |-> Opt(d), pdly |-> "null", rs |-> "null", rd |-> rawd]
+            m == [p |-> p, k |-> "meas", et |-> dl.send, off |-> NoneV, dly |-> Opt(d), pdly |-> NoneV, rs |-> NoneV, rd |-> rawd]
         IN Res3([s EXCEPT !.dl[p] = EmptyX, !.md[p] = IF IsNoneV(d) THEN @ ELSE d], <<>>, <<>>, <<m>>)
      ELSE NoOp(s)
 
